@@ -249,7 +249,13 @@ def regen_sectors(changed):
 def regen_io(changed=None):
     """T-gen for C13-C15: vendor column tables, alias/sentinel tables of the I/O plugins (OrixGen/IoTables.lean)"""
     from . import tables_io
-    text, status = tables_io.generate()
+    try:
+        text, status = tables_io.generate()
+    except Exception as e:          # the extractor met source it cannot read: the tie is broken, never the run
+        import traceback
+        return {"__crash__": f"I/O table extraction failed ({type(e).__name__}: {e}; "
+                             f"{traceback.format_exc(limit=2).splitlines()[-3].strip() if traceback.format_exc() else ''}); "
+                             "the previously generated tables are kept, so the table obligations say nothing about this tree"}
     if write_if_changed(os.path.join(LEAN, "OrixGen", "IoTables.lean"), text) and changed is not None:
         changed.append("OrixGen/IoTables.lean")
     return status
